@@ -178,7 +178,7 @@ func pinnedC02(t *mon.T, which string) {
 
 func runC02(r *mon.Run) {
 	r.Rule = "cases: the C01 operand/context generators for Add/Sub/Mul/Quo/Round plus the QuoInteger/Rem, Quantize, RoundToIntegralExact, " +
-		"Reduce and Sqrt generators; the Condition returned by apd is compared with the flags derived from the exact result by the reference " +
+		"Reduce and Sqrt generators, and perfect cubes in volume for Cbrt; the Condition returned by apd is compared with the flags derived from the exact result by the reference " +
 		"model: equalities on Inexact, Subnormal, Underflow, Overflow and the division/invalid conditions, implications only for Rounded " +
 		"(Inexact => Rounded on finite results) and none for Clamped; no bit outside the twelve documented ones. distinct_nontrivial = " +
 		"distinct cases whose model flags are non-empty."
@@ -187,6 +187,11 @@ func runC02(r *mon.Run) {
 	r.Serial("pinned", func(t *mon.T) { pinnedC02(t, "flags") })
 	r.Parallel("flags", r.N(500000, 40000000), func(t *mon.T) { mixedFlagCase(t, "flags") })
 	r.Parallel("coincidence-lengths", int64(len(coincidenceExps))*r.N(2, 20), func(t *mon.T) { coincidenceArithCase(t, "flags") })
+	// Cbrt: Inexact and Rounded on perfect cubes whose root fits (the returned
+	// value is the exact result, so neither may be raised); the case function
+	// is C11's, in volume, because which cubes go wrong is not a boundary shape
+	r.Parallel("cbrt-perfect-cubes", r.N(200000, 10000000), perfectCubeFlagsCase)
+	r.Require("cbrt/perfect-cube-volume", 150000)
 	if !r.Quick() {
 		gridRun(r, "flags")
 	}
